@@ -251,6 +251,17 @@ def run_case(case, ctx):
         ctx.cls("cloud", "drawn-by-contour")
         spec = S.gen_spec(rng, structure=[None, 0], nonneg=True, allow_hostile=False)
         model = S.build_virocon(spec)
+        # which kind of model draws the sample: a hierarchical model, or a transformed model with its own Monte-Carlo
+        # settings (precision_factor, random_state) - the sample size of the contour is int(100/alpha) either way
+        mk = int(case["sub"]) % 4
+        if mk in (1, 3) and case["alpha"] >= 1e-3:
+            from . import c16
+
+            pf = [0.2, 3.0][mk // 2]
+            model, _ = c16.build_transformed(c16.hs_s_spec(rng, "random"), precision_factor=pf, random_state=[None, 7][mk // 2])
+            ctx.cls("drawing-model", f"transformed(precision_factor={pf})")
+        else:
+            ctx.cls("drawing-model", "hierarchical")
         con = DirectSamplingContour(model, case["alpha"], deg_step=case["deg_step"])
         ctx.nontrivial = True
         ctx.sample = {"cloud": "drawn", "alpha": case["alpha"], "deg_step": case["deg_step"], "n": int(len(con.sample))}
